@@ -51,7 +51,7 @@ prop("C12", "exploration",
      "RFC construction = zspec::fse::build_dtable (checked against the reference literal tables).",
      "runtime monitoring: differential execution against an executable RFC model")
 prop("C13", "exploration",
-     "Encoder side: all 255 alphabet sizes x placements x rank orders: code is complete (Kraft), prefix-free, depth <= 11; description (direct / FSE) read by ruzstd's decoder and by the model into the same lengths; 1- and 4-stream payloads decoded by the model; complete literals sections through the real section decoder and, inside a frame, the reference decoder. Decoder side: ALL direct weight vectors over {0..12} up to length 5 (6 in thorough) and a sample up to 255 weights (direct and FSE): accepted iff the rule holds, table == canonical table.",
+     "Encoder side: all 255 alphabet sizes x placements x rank orders: code is complete (Kraft), prefix-free, depth <= 11; description (direct / FSE) read by ruzstd's decoder and by the model into the same lengths; 1- and 4-stream payloads decoded by the model; complete literals sections through the real section decoder and, inside a frame, the reference decoder. Chains of 2-5 literal buffers of consecutive blocks (histogram variations: symbol above the old maximum / in a gap, dropped symbols, shifted frequencies, too few literals) through the compressor's literals encoder with the table it kept and the decoder's literals decoder with the table it kept (treeless reuse). Decoder side: ALL direct weight vectors over {0..12} up to length 5 (6 in thorough) and a sample up to 255 weights (direct and FSE): accepted iff the rule holds, table == canonical table.",
      "Validity rule = zspec::huf::weights_to_lengths (sum completes to a power of two, depth <= 11).",
      "runtime monitoring: exhaustive/small-scope differential execution against an executable RFC model")
 prop("C15", "exploration",
@@ -63,7 +63,7 @@ prop("C16", "exploration",
      "The script honours the Matcher contract (ml >= 3, 1 <= offset <= min(window, data so far), exact tiling, blocks <= 128 KiB).",
      "runtime monitoring: scripted fault-free environment (user matcher) with two decoders as oracle")
 prop("C18", "exploration",
-     "One generic driver (harness/feat4) built four times ({std,no_std} x {hash,no hash}) replays the same workload file: compressions through fragmenting / take-limited readers and short writers with Interrupted injected where the library retries it, compressor reuse; decodes of valid and damaged frames through StreamingDecoder (read / take / read_exact), decode_blocks + collect_to_writer, decode_from_to. An offline checker compares the four digest logs line by line: std == no_std exactly; hash vs no hash may differ only in descriptor bit 2, the 4 trailer bytes and the calculated checksum.",
+     "One generic driver (harness/feat4) built four times ({std,no_std} x {hash,no hash}) replays the same workload file: compressions through fragmenting / take-limited readers and short writers with Interrupted injected where the library retries it, compressor reuse; decodes of valid and damaged frames through StreamingDecoder (read / take / read_exact), decode_blocks + collect_to_writer, stepwise decode_blocks with collect() / read() / no drain mixed and a final collect() (long frames with small windows so that the ring wraps), decode_all, decode_all_to_vec, decode_from_to. An offline checker compares the four digest logs line by line: std == no_std exactly; hash vs no hash may differ only in descriptor bit 2, the 4 trailer bytes and the calculated checksum.",
      "Interrupted is injected only on decoder sources and compressor drains (the compressor unwraps errors of its source in every build).",
      "runtime monitoring: offline comparison of recorded digest logs from four builds")
 prop("C04", "exploration",
@@ -83,12 +83,12 @@ prop("C17", "exploration",
      "Blocks are non-empty and at most one slice, as the compressor guarantees. Constructor with arbitrary slice size / slice count is a feature gated hook.",
      "runtime monitoring: online checker over the sequence event stream of the real match finder")
 prop("C19", "exploration",
-     "The real ruzstd-cli binary (built from /repo) is run in fresh directories on generated files: sizes 0, 1, thresholds, 128 KiB*k +-1, MiBs x data shapes x level option {absent, -l 0, -l 1, --level 1, --level=0, 2, 3, 4, 5, 255, 256, x, -1} x explicit / defaulted paths. Verdict per invocation from exit status, stderr and files: exit 0 => libzstd decodes the .zst to the original and `decompress` restores identical bytes; levels that must work (absent, 0, 1) must exit 0; a panic that leaves an output file behind is a violation; a clean non-zero exit is accepted.",
-     "'Implemented level' = 0 and 1; timeouts are inconclusive. Files up to 3 MiB quick / 256 MiB thorough.",
-     "runtime monitoring: black box process monitor (exit status, stderr, file system) with reference decoder")
+     "The real ruzstd-cli binary (built from /repo) is run in fresh directories on generated files: sizes 0, 1, thresholds, 128 KiB*k +-1, MiBs x data shapes x level option {absent, -l 0, -l 1, --level 1, --level=0, 2, 3, 4, 5, 255, 256, x, -1} x explicit / defaulted paths. Verdict per invocation from exit status, stderr and files: exit 0 => libzstd decodes the .zst to the original and `decompress` restores identical bytes; levels that must work (absent, 0, 1) must exit 0; a panic that leaves an output file behind is a violation; a clean non-zero exit is accepted. Output paths are fresh, or already hold a longer / a shorter file. Fault injection: the output is /dev/full, or a file size limit (ulimit -f with SIGXFSZ ignored) cuts the result in the middle - the tool must fail through its exit status, exit 0 or a panic with a file left behind is a violation.",
+     "'Implemented level' = 0 and 1; timeouts are inconclusive. Files up to 3 MiB quick / 256 MiB thorough. Write faults are injected on the output only (not on reads of the input).",
+     "runtime monitoring: black box process monitor (exit status, stderr, file system) with reference decoder and injected write faults")
 prop("C20", "exploration",
-     "create_raw_dict_from_source is called in child processes (so hangs can be killed and aborts observed) on generated sources of 0..200 KiB in five shapes with size estimates exact / under / over / tiny, dictionary sizes 0..source size incl. the k-mer (16) and segment (2048) boundaries and fragmented readers. Violations: panic, more bytes written than dict_size, CPU budget exceeded reproducibly (non-termination).",
-     "Sources are capped at 200 KiB because the epoch loop is quadratic; fastrand is seeded per case for replay.",
+     "create_raw_dict_from_source is called in child processes (so hangs can be killed and aborts observed) on generated sources of 0..200 KiB in five shapes with size estimates exact / under / over / tiny, dictionary sizes 0..source size incl. the k-mer (16) and segment (2048) boundaries and fragmented readers; estimates of 512 KiB..4 MiB whose sample spans several segments with every tail length (also below one k-mer), and estimates around 2^32. Release build and a build with overflow checks. Violations: panic, more bytes written than dict_size, CPU budget exceeded reproducibly (non-termination).",
+     "Sources are capped at 200 KiB (a few of 512 KiB+ in the thorough tier) because the epoch loop is quadratic; fastrand is seeded per case for replay. After three confirmed non-terminations the remaining cases are not run (the verdict is decided).",
      "runtime monitoring: sub-process monitor of output length, panics and CPU time")
 
 def main():
